@@ -3,7 +3,7 @@
 import json, os, sys
 HERE = os.path.dirname(os.path.dirname(os.path.abspath(__file__)))
 sys.path.insert(0, HERE)
-from sa.registry import CLAIMS, NOT_APPLICABLE
+from sa.registry import CLAIMS, NOT_APPLICABLE, EXTRA
 props = [json.loads(l) for l in open(os.path.join(HERE, "properties.jsonl"))]
 checks, na = [], []
 for p in props:
@@ -11,6 +11,8 @@ for p in props:
     has = os.path.exists(os.path.join(HERE, "sa", "rules", pid.lower() + ".py"))
     if has and pid in CLAIMS:
         dec, nodec, tech = CLAIMS[pid]
+        if pid in EXTRA:
+            dec = dec + "; " + EXTRA[pid]
         checks.append({
             "property_id": pid,
             "quick_cmd": "./check %s" % pid,
